@@ -35,6 +35,8 @@ type Variant struct {
 	Creator    bool   // include creator ops (top-up, rate change, destroy)
 	BigStake   bool   // include a 10^18+1 stake
 	Mode       string // "C05" or "C06": which oracles are evaluated
+	// InitialHeight of the chain (0 = 1)
+	InitialHeight int64
 }
 
 type model struct {
@@ -206,7 +208,7 @@ func New(v Variant) func() (*mc.Env, mc.Driver) {
 		for _, f := range v.Farmers {
 			bal[f] = sdk.NewCoins(mc.C("stake", 1000))
 		}
-		e := mc.NewEnv(mc.EnvOptions{Balances: bal})
+		e := mc.NewEnv(mc.EnvOptions{Balances: bal, InitialHeight: v.InitialHeight})
 		return e, &Driver{V: v}
 	}
 }
